@@ -10,17 +10,6 @@ def need(cond, msg):
         raise AnalysisError(msg)
 
 
-def guards_of(g, n):
-    """[(atom text, polarity, test node)] for every branch edge that dominates node n."""
-    out = []
-    for (t, lab) in g.edge_guards(n):
-        if t.kind == 'test':
-            out.append((U(t.ast), lab == 'true', t))
-        elif t.kind == 'for':
-            out.append(('for ' + U(t.ast.target) + ' in ' + U(t.ast.iter), lab == 'body', t))
-    return out
-
-
 def calls_to(run, g, quals):
     """(node, call) pairs in CFG g whose call resolves to one of the function quals."""
     if isinstance(quals, str):
@@ -47,13 +36,19 @@ def ext_calls(run, g, names):
     return out
 
 
+QUERY_LOG = None      # set to a list by the thorough tier: every must-pass-through query is re-decided by path enumeration
+
+
 def all_paths_pass(g, srcs, through, dsts, skip_edge=None):
     """True iff every path from (after) srcs to any of dsts passes a node in ``through``."""
     starts = []
     for s in srcs:
         starts.append(s)
     r = g.reachable(starts, avoid=set(through), skip_edge=skip_edge)
-    return not any(d in r for d in dsts)
+    res = not any(d in r for d in dsts)
+    if QUERY_LOG is not None:
+        QUERY_LOG.append((g, list(starts), set(through), list(dsts), skip_edge, res))
+    return res
 
 
 def succs(n, label=None):
@@ -198,74 +193,384 @@ def atom_text(run, ctx, e):
     return U(e)
 
 
-def literals_of(run, g, rd, tnode, polarity):
-    """Literals implied by test node ``tnode`` evaluating to ``polarity``.
+# ---- canonical forms of atoms -------------------------------------------------------------------
+class Lits(frozenset):
+    """A set of (text, polarity) literals (all equivalent forms of every atom) + the atoms as groups."""
+    groups = ()
 
-    A Name whose single definition is an and/or of atoms is expanded when the polarity allows;
-    otherwise a composite literal ('and(a,b)', False) / ('or(a,b)', True) is produced."""
+
+def _pure(e, depth=0):
+    """Side-effect free expression whose value can be substituted for a local that copies it."""
+    if depth > 6:
+        return False
+    if isinstance(e, (ast.Name, ast.Constant)):
+        return True
+    if isinstance(e, ast.Attribute):
+        return _pure(e.value, depth + 1)
+    if isinstance(e, ast.Subscript):
+        return _pure(e.value, depth + 1) and (isinstance(e.slice, ast.Slice) or _pure(e.slice, depth + 1))
+    if isinstance(e, ast.BinOp) and isinstance(e.op, (ast.Add, ast.Sub, ast.Mult, ast.RShift, ast.LShift, ast.BitAnd)):
+        return _pure(e.left, depth + 1) and _pure(e.right, depth + 1)
+    if isinstance(e, ast.UnaryOp) and isinstance(e.op, ast.USub):
+        return _pure(e.operand, depth + 1)
+    if isinstance(e, ast.Call) and isinstance(e.func, ast.Name) and e.func.id in ('len', 'bool', 'int') and len(e.args) == 1:
+        return _pure(e.args[0], depth + 1)
+    return False
+
+
+def _boolish(e):
+    return isinstance(e, (ast.Compare, ast.BoolOp)) or (isinstance(e, ast.UnaryOp) and isinstance(e.op, ast.Not)) \
+        or (isinstance(e, ast.Constant) and isinstance(e.value, bool)) \
+        or (isinstance(e, ast.Call) and isinstance(e.func, ast.Name) and e.func.id in ('isinstance', 'hasattr', 'bool'))
+
+
+class _Subst(ast.NodeTransformer):
+    def __init__(self, look):
+        self.look = look
+
+    def visit_Name(self, node):
+        if isinstance(node.ctx, ast.Load):
+            r = self.look(node.id)
+            if r is not None:
+                return copy.deepcopy(r)
+        return node
+
+
+def g_rd(g):
+    rd = getattr(g, '_rd', None)
+    if rd is None:
+        rd = g._rd = ReachingDefs(g)
+    return rd
+
+
+def subst_locals(run, g, node, e, env=None, depth=3):
+    """Replace local names that merely copy a pure expression by that expression (single reaching definition, or the
+    path-sensitive environment ``env``)."""
+    rd = g_rd(g)
+    for _ in range(depth):
+        changed = [False]
+
+        def look(name):
+            v = None
+            if env is not None and name in env:
+                v = env[name]
+            elif env is None or name not in env:
+                ds = rd.defs_at(node, name)
+                if len(ds) == 1:
+                    d = next(iter(ds))
+                    v = rd.value_of_def(d, name)
+                    if v is not None:
+                        # operands of the copied expression must not have been re-assigned since (cheap check:
+                        # their definitions reaching the use equal those reaching the copy)
+                        for nm in names_in(v):
+                            if nm != name and rd.defs_at(node, nm) != rd.defs_at(d, nm):
+                                v = None
+                                break
+            if v is not None and _pure(v) and not (isinstance(v, ast.Name) and v.id == name):
+                changed[0] = True
+                return v
+            return None
+        e2 = _Subst(look).visit(copy.deepcopy(e))
+        if not changed[0]:
+            return e2
+        e = e2
+    return e
+
+
+_FLIP = {ast.Lt: ast.Gt, ast.LtE: ast.GtE, ast.Gt: ast.Lt, ast.GtE: ast.LtE}
+
+
+def _norm_forms(e, pol, out, depth=0):
+    """Add (text, pol) for e and for its normalised comparison forms."""
+    out.add((U(e), pol))
+    if depth > 3:
+        return
+    if isinstance(e, ast.UnaryOp) and isinstance(e.op, ast.Not):
+        _norm_forms(e.operand, not pol, out, depth + 1)
+        return
+    if isinstance(e, ast.Compare) and len(e.ops) == 1:
+        op, l, r = e.ops[0], e.left, e.comparators[0]
+        neg = {ast.IsNot: ast.Is, ast.NotEq: ast.Eq, ast.NotIn: ast.In}.get(type(op))
+        if neg is not None:
+            e2 = ast.Compare(left=l, ops=[neg()], comparators=[r])
+            _norm_forms(e2, not pol, out, depth + 1)
+            return
+        if isinstance(l, ast.Constant) and not isinstance(r, ast.Constant):
+            if type(op) in _FLIP:
+                e2 = ast.Compare(left=r, ops=[_FLIP[type(op)]()], comparators=[l])
+                out.add((U(e2), pol))
+            elif isinstance(op, (ast.Eq, ast.Is)):
+                e2 = ast.Compare(left=r, ops=[op], comparators=[l])
+                out.add((U(e2), pol))
+        elif isinstance(op, (ast.Eq,)) and not isinstance(r, ast.Constant) and U(l) > U(r):
+            out.add((U(ast.Compare(left=r, ops=[op], comparators=[l])), pol))
+    if isinstance(e, ast.Call) and isinstance(e.func, ast.Name) and e.func.id == 'bool' and len(e.args) == 1:
+        _norm_forms(e.args[0], pol, out, depth + 1)
+
+
+def atom_forms(run, g, node, e, pol, env=None):
+    """All equivalent (text, polarity) forms of the atomic condition e evaluated at CFG node ``node``.
+    Returns None if the condition is a constant contradicting ``pol`` (infeasible branch)."""
     ctx = g.ctx
-    e = tnode.ast
     out = set()
-    out.add((atom_text(run, ctx, e), polarity))
-    o, on = rd.origin(tnode, e) if isinstance(e, ast.Name) else (e, tnode)
-    inl = inline_property(run, ctx, o) if isinstance(o, ast.Attribute) else None
-    if inl is not None:
-        o = inl
-    if isinstance(o, ast.UnaryOp) and isinstance(o.op, ast.Not):
-        out.add((atom_text(run, ctx, o.operand), not polarity))
-        o2 = o.operand
-        if isinstance(o2, ast.BoolOp):
-            parts = sorted(atom_text(run, ctx, v) for v in o2.values)
-            if isinstance(o2.op, ast.And) and not polarity:
-                for p in parts:
-                    out.add((p, True))
-            if isinstance(o2.op, ast.Or) and polarity:
-                for p in parts:
-                    out.add((p, False))
-    if isinstance(o, ast.BoolOp):
-        parts = sorted(atom_text(run, ctx, v) for v in o.values)
-        if isinstance(o.op, ast.And):
-            if polarity:
-                for p in parts:
-                    out.add((p, True))
-            else:
-                out.add(('and(%s)' % ','.join(parts), False))
+    cands = [e]
+    e1 = subst_locals(run, g, node, e, env)
+    if U(e1) != U(e):
+        cands.append(e1)
+    for c in list(cands):
+        # inline one-line properties anywhere inside the atom
+        c2 = _InlineProps(run, ctx).visit(copy.deepcopy(c))
+        if U(c2) != U(c):
+            cands.append(c2)
+    for c in cands:
+        _norm_forms(c, pol, out)
+    # flag variables: a Name whose (path-sensitive or single) definition is a boolean expression
+    if isinstance(e, ast.Name):
+        v = None
+        rd = g_rd(g)
+        if env is not None and e.id in env:
+            v = env[e.id]
         else:
-            if not polarity:
-                for p in parts:
-                    out.add((p, False))
-            else:
-                out.add(('or(%s)' % ','.join(parts), True))
-    elif o is not e:
-        out.add((atom_text(run, ctx, o), polarity))
+            ds = rd.defs_at(node, e.id)
+            if len(ds) == 1:
+                v = rd.value_of_def(next(iter(ds)), e.id)
+        if v is not None and _boolish(v):
+            r = cond_forms(run, g, node, v, pol, env)
+            if r is None:
+                return None
+            out |= r
     return out
 
 
-def path_conditions(run, g, rd, start, target, limit=5000, through_exc=False, prune=True):
-    """Literal sets of every simple path start -> target (non-exception edges)."""
+class _InlineProps(ast.NodeTransformer):
+    def __init__(self, run, ctx):
+        self.run, self.ctx = run, ctx
+
+    def visit_Attribute(self, node):
+        node = self.generic_visit(node)
+        if isinstance(node.ctx, ast.Load):
+            r = inline_property(self.run, self.ctx, node)
+            if r is not None:
+                return r
+        return node
+
+
+def cond_forms(run, g, node, e, pol, env=None):
+    """Literals implied by the (possibly compound) boolean expression e having truth value pol."""
+    if isinstance(e, ast.Constant) and isinstance(e.value, bool):
+        return set() if e.value == pol else None
+    if isinstance(e, ast.UnaryOp) and isinstance(e.op, ast.Not):
+        return cond_forms(run, g, node, e.operand, not pol, env)
+    if isinstance(e, ast.BoolOp):
+        conj = isinstance(e.op, ast.And)
+        if conj == pol:
+            out = set()
+            for v in e.values:
+                r = cond_forms(run, g, node, v, pol, env)
+                if r is None:
+                    return None
+                out |= r
+            return out
+        parts = []
+        for v in e.values:
+            fs = atom_forms(run, g, node, v, True, env) or set()
+            # canonical part text: the property-inlined / substituted form sorts last by convention; keep all
+            parts.append(sorted(t for (t, p) in fs if p))
+        out = set()
+        import itertools
+        combos = list(itertools.islice(itertools.product(*parts), 64)) if all(parts) else []
+        for combo in combos:
+            out.add((('and(%s)' if conj else 'or(%s)') % ','.join(sorted(combo)), pol))
+        return out
+    return atom_forms(run, g, node, e, pol, env)
+
+
+def literals_of(run, g, rd, tnode, polarity, env=None):
+    """Literals implied by test node ``tnode`` evaluating to ``polarity`` (None when infeasible)."""
+    r = cond_forms(run, g, tnode, tnode.ast, polarity, env)
+    return r
+
+
+def guards_of(g, n):
+    """[(atom text, polarity, test node)] for every branch edge that dominates node n - every equivalent form of each
+    atom is listed (same test node)."""
+    run = getattr(g, 'run', None)
+    out = []
+    for (t, lab) in g.edge_guards(n):
+        if t.kind == 'test':
+            forms = None
+            if run is not None:
+                forms = cond_forms(run, g, t, t.ast, lab == 'true')
+            if not forms:
+                forms = {(U(t.ast), lab == 'true')}
+            for (txt, pol) in sorted(forms):
+                out.append((txt, pol, t))
+        elif t.kind == 'for':
+            out.append(('for ' + U(t.ast.target) + ' in ' + U(t.ast.iter), lab == 'body', t))
+    return out
+
+
+def guard_groups(g, n):
+    """[(test node, set of (text, pol))] - one entry per dominating test."""
+    out = {}
+    for (txt, pol, t) in guards_of(g, n):
+        if t.kind == 'test':
+            out.setdefault(t, set()).add((txt, pol))
+    return list(out.items())
+
+
+def only_guards(g, n, allowed):
+    """True iff every dominating test of n has a form in ``allowed`` and every element of allowed is present."""
+    groups = guard_groups(g, n)
+    allowed = set(allowed)
+    hit = set()
+    for (t, forms) in groups:
+        m = forms & allowed
+        if not m:
+            return False
+        hit |= m
+    return len(groups) == len(allowed) and all(any(a in forms for (t, forms) in groups) for a in allowed)
+
+
+def _kill(env, name):
+    env.pop(name, None)
+    for k in [k for k, v in env.items() if name in names_in(v)]:
+        env.pop(k)
+
+
+def _update_env(env, n):
+    """Path-sensitive environment of simple local assignments."""
+    a = n.ast
+    if n.kind == 'stmt':
+        if isinstance(a, ast.Assign) and len(a.targets) == 1 and isinstance(a.targets[0], ast.Name):
+            nm = a.targets[0].id
+            val = a.value
+            _kill(env, nm)
+            if (_pure(val) or _boolish(val)) and nm not in names_in(val) and \
+                    not any(isinstance(x, (ast.Yield, ast.YieldFrom)) for x in ast.walk(val)):
+                env[nm] = val
+            return
+        for nm in _defs(n):
+            _kill(env, nm)
+    elif n.kind in ('for', 'with', 'handler', 'def'):
+        for nm in _defs(n):
+            _kill(env, nm)
+
+
+def _defs(n):
+    from ..dataflow import defs_of_node
+    return defs_of_node(n)
+
+
+_POST_CACHE = {}
+
+
+def call_postconditions(run, g, n, depth=0):
+    """Literals guaranteed after the calls in node n returned normally (callee: package function, not a generator):
+    the literals common to every normal path through the callee, re-expressed in the caller's terms."""
+    out = set()
+    if depth > 1:
+        return out
+    for c in n.calls:
+        ts = run.types.call_targets(c, g.ctx)
+        if len(ts) != 1 or ts[0].kind != 'func' or ts[0].func.is_generator:
+            continue
+        t = ts[0]
+        fi = t.func
+        if fi.cls is None or not isinstance(c.func, ast.Attribute) or U(c.func.value) != 'self':
+            continue
+        key = (fi.qual, t.recv)
+        if key not in _POST_CACHE or _POST_CACHE[key][0] is not run:
+            _POST_CACHE[key] = (run, None)
+            try:
+                cg = run.cfg(fi.qual, t.recv)
+                pcs = path_conditions(run, cg, g_rd(cg), cg.entry, cg.exit, limit=300, _depth=depth + 1)
+            except AnalysisError:
+                pcs = []
+            common_ = None
+            for l in pcs:
+                common_ = set(l) if common_ is None else common_ & set(l)
+            _POST_CACHE[key] = (run, common_ or set())
+        post = _POST_CACHE[key][1] or set()
+        if not post:
+            continue
+        params = [p for p in fi.params if p != 'self']
+        amap = {}
+        for i, p in enumerate(params):
+            a = arg_of(c, fi, p)
+            if a is not None:
+                amap[p] = a
+        for (txt, pol) in post:
+            try:
+                e = ast.parse(txt, mode='eval').body
+            except SyntaxError:
+                continue
+            free = names_in(e) - {'self'}
+            if not free <= set(amap) | {'isinstance', 'len', 'hasattr', 'bool', 'bytes', 'str', 'Opcode', 'Status'}:
+                continue
+            e2 = _Subst(lambda nm: amap.get(nm)).visit(e)
+            out.add((U(e2), pol))
+    return out
+
+
+def path_conditions(run, g, rd, start, target, limit=5000, through_exc=False, prune=True, _depth=0):
+    """Literal sets of every simple path start -> target (non-exception edges).  Each element is a ``Lits`` frozenset
+    of (text, polarity) containing every equivalent form of each atom; ``.groups`` lists the atoms one by one."""
     out = []
     count = [0]
 
-    def rec(n, seen, lits):
+    def rec(n, seen, lits, groups, env):
         if count[0] > limit:
             raise AnalysisError('path enumeration limit exceeded in %s' % g.ctx.func.qual)
         if n is target:
             count[0] += 1
-            out.append(frozenset(lits))
+            L = Lits(lits)
+            L.groups = tuple(groups)
+            out.append(L)
             return
+        env2 = dict(env)
+        _update_env(env2, n)
+        post = None
         for (m, l) in n.succ:
             if l.startswith('exc:') and not through_exc:
                 continue
             if m in seen:
                 continue
             add = set()
+            grp = groups
             if n.kind == 'test' and l in ('true', 'false'):
-                add = literals_of(run, g, rd, n, l == 'true')
+                add = literals_of(run, g, rd, n, l == 'true', env2)
+                if add is None:
+                    continue                      # constant condition contradicts this branch
                 # a path asserting an atom both ways is infeasible (atoms are pure reads of unchanged operands)
                 if prune and any((t, not p) in lits for (t, p) in add):
                     continue
-            rec(m, seen | {m}, lits | add)
-    rec(start, {start}, set())
+                grp = groups + [(n, l == 'true', frozenset(add))]
+            elif n.calls and n.kind in ('stmt', 'test') and _depth < 2:
+                if post is None:
+                    post = call_postconditions(run, g, n, _depth)
+                add = post
+            rec(m, seen | {m}, lits | add, grp, env2)
+    rec(start, {start}, set(), [], {})
+    return out
+
+
+def facts(run, g, n, start=None):
+    """Literals (all forms) common to every path from start (default entry) to n."""
+    pcs = path_conditions(run, g, g_rd(g), start or g.entry, n)
+    common_ = None
+    for l in pcs:
+        common_ = set(l) if common_ is None else common_ & set(l)
+    return common_ or set()
+
+
+def extra_atoms(l, allowed):
+    """Atoms (groups) of path condition l none of whose forms is in ``allowed``."""
+    allowed = set(allowed)
+    out = []
+    for (tn, pol, forms) in getattr(l, 'groups', ()):
+        if not (forms & allowed):
+            out.append(sorted(forms)[0])
     return out
 
 
@@ -392,3 +697,33 @@ def lin_cmp(text_or_expr, polarity=True, alias=None):
     if sym is None:
         return None
     return out, sym
+
+
+# ------------------------------------------------------------------------------ exact atom matching
+def guard_atom_sets(g, n):
+    """[frozenset(forms)] - one per test whose branch edge dominates n."""
+    return [frozenset(forms) for (t, forms) in guard_groups(g, n)]
+
+
+def path_atom_sets(l):
+    return [forms for (tn, pol, forms) in getattr(l, 'groups', ())]
+
+
+def match_exact(groups, atoms, optional=()):
+    """Every group matches one of ``atoms`` (sets of acceptable forms) or ``optional``; every atom is matched."""
+    atoms = [set(a) if not (isinstance(a, tuple) and len(a) == 2 and isinstance(a[1], bool)) else {a} for a in atoms]
+    optional = [set(a) if not (isinstance(a, tuple) and len(a) == 2 and isinstance(a[1], bool)) else {a} for a in optional]
+    used = set()
+    for forms in groups:
+        hit = [i for i, a in enumerate(atoms) if forms & a]
+        if not hit:
+            if any(forms & o for o in optional):
+                continue
+            return False
+        used.update(hit)
+    return used == set(range(len(atoms)))
+
+
+def unmatched(groups, accept):
+    """Groups for which ``accept(forms)`` is false (accept gets the frozenset of forms)."""
+    return [sorted(f)[0] for f in groups if not accept(f)]
